@@ -95,8 +95,13 @@ CLAIMED = {
     text='tcp_singleton (any number of clients, any interleaving), idle_not_before and idle_disabled_never_exits (any sequence of arrivals and polls) are proved; unix_second_server is a kernel-checked witness that the property fails for Unix-socket addresses (finding F-C20-a), replayed on the real binary. Real cold starts with 2..N simultaneous clients are censused (one server, every request correct), a stop request with a compile in flight and the idle exit time are measured. Partial: real process schedules cannot be enumerated; no line-protocol correspondence for this model.',
     note='Trusted: Lean kernel, Model/Startup.lean and Idle.lean (hand-read from commands.rs / server.rs; tied only by census and witness replay), OS bind semantics.',
     ref='DESIGN.md section 4 C20, Appendix B.10'),
+
+ 'C05': dict(technique='Lean 4 proof (permutation invariance of the rustc key pre-image, filtered argument classes, framing injectivity, kernel-checked alias witness) + byte-exact framing correspondence + end-to-end rustc histories against direct runs',
+    text='rust_key_perm, rust_key_ignores_extern_paths and encArg_inj are proved; extern_alias_witness is a kernel-checked counterexample to full sensitivity (finding F-C05-a) replayed on the real binary and rustc. The framing of OsString/String/PathBuf is compared byte-exactly with std Hash; real sccache+rustc histories over a generated crate must miss on every input edit, hit on every reordering, and equal a direct rustc run file by file. Partial: argument parsing and output computation of rust.rs are not modelled; the component order is hand-read.',
+    note='Trusted: Lean kernel, Model/RustKey.lean (framing tied byte-exactly, layout hand-read), completeness of rustc dep-info.',
+    ref='DESIGN.md section 4 C05, Appendix B.16'),
 }
-NA_REASON = 'not yet wired into ./check in this round (model and theorems exist under lean/; see DESIGN.md section 0.1)'
+NA_REASON = 'not claimed'
 def hooks():
     try:
         out = subprocess.run(['git', '-C', '/repo', 'log', '--format=%H %s'], capture_output=True, text=True).stdout
